@@ -224,10 +224,7 @@ func c02Cause(c *cluster, replica string, m committedMsg) string {
 			return "/replica-added-to-isr-after-the-commit"
 		}
 	}
-	if c.h.logHits["Failed to fetch last offset for leader epoch"] > 0 {
-		return "/after-hw-fallback-truncation"
-	}
-	return ""
+	return c.h.fallbackTag(m.off)
 }
 
 func c02Committed(c *cluster) []committedMsg {
@@ -310,9 +307,6 @@ func c02Boundary(c *cluster, final bool) {
 	// to its own (possibly stale) high watermark; the code documents that this can lose data (known
 	// finding). Violations in runs where that fallback happened are classified apart.
 	tag := ""
-	if h.logHits["Failed to fetch last offset for leader epoch"] > 0 {
-		tag = "/after-hw-fallback-truncation"
-	}
 	for _, m := range com {
 		if m.stale {
 			// a leader cut off from the controller committed on its own: its high watermark is not the partition's
